@@ -28,7 +28,83 @@ def tname(t, j):
     return "T%dx%d" % (t, j)
 
 
+PAIR = {1: ("x,y", "z"), 2: ("x", "y,z"), 3: ("p", "q")}     # group-by values whose comma-joined forms collide for targets 1 and 2
+
+
+def render_split2(mlr, hist, kind, mode):
+    """split -g a,b with values needing escaping in file names (commas): input as CSV, targets found by listing."""
+    import csv
+    import io
+    buf = io.StringIO()
+    w = csv.writer(buf, lineterminator="\n")
+    w.writerow(["a", "b", "t", "i"])
+    for t, r in hist:
+        w.writerow([PAIR[t][0], PAIR[t][1], tname(t, 0), r])
+    oflag = {"plain": ["--ojsonl"], "header": ["--ocsv"], "bracket": ["--ojson"]}[kind]
+    argv = [mlr, "--icsv"] + oflag + ["split", "-g", "a,b", "--prefix", "out"] + (["-a"] if mode == "append" else []) + ["in.csv"]
+    return {"argv": argv, "files": {"in.csv": buf.getvalue()}, "collect": True, "timeout_ms": 12000, "env": {}}
+
+
+def observe_split2(res, hist, kind, ntargets):
+    import csv
+    import io
+    got = res.get("files") or {}
+    files = [[] for _ in range(ntargets)]
+    uniform = True
+    for name, text in sorted(got.items()):
+        if not name.startswith("out_"):
+            continue
+        toks, owner = [], None
+        if kind == "header":
+            for row in csv.reader(io.StringIO(text)):
+                if row == ["a", "b", "t", "i"]:
+                    toks.append(["H"])
+                elif len(row) == 4 and row[3].isdigit():
+                    toks.append(["R", int(row[3])])
+                    owner = owner or row[2]
+                else:
+                    toks.append(["BAD", ",".join(row)[:40]])
+        else:
+            if kind == "bracket":
+                try:
+                    val = json.loads(text)
+                    docs = [val] if isinstance(val, list) else None
+                except ValueError:
+                    docs = None
+                if docs is None:
+                    toks = tokenize(text, "bracket")
+                    for x in re.findall(r'"t": "(T\dx0)"', text)[:1]:
+                        owner = x
+                else:
+                    toks.append(["O"])
+                    for x in docs[0]:
+                        toks.append(["R", x.get("i", -1)])
+                        owner = owner or x.get("t")
+                    toks.append(["C"])
+            else:
+                for line in text.split("\n"):
+                    if line == "":
+                        continue
+                    try:
+                        x = json.loads(line)
+                        toks.append(["R", x.get("i", -1)])
+                        owner = owner or x.get("t")
+                    except ValueError:
+                        toks.append(["BAD", line[:40]])
+        m = re.match(r"T(\d)x0", owner or "")
+        if not m:
+            uniform = False
+            continue
+        t = int(m.group(1))
+        if files[t - 1]:
+            uniform = False         # two files for one target
+        files[t - 1] = toks
+    return {"hist": [list(x) for x in hist], "files": files, "uniform": uniform}
+
+
 def render(mlr, hist, kind, mode, pre, block, form):
+    if form == "split2":
+        return render_split2(mlr, hist, kind, mode), ""
     ext = EXT[kind]
     lines = []
     for t, r in hist:
@@ -219,6 +295,8 @@ def run(tier, seed):
                 runs.append((c, h, form))
             if block == 1 and kind != "bracket" and n % 3 == 0:
                 runs.append((c, h, "pipe"))
+            if block == 1 and not pre and (thorough or n % 2 == 0):
+                runs.append((c, h, "split2"))       # two group-by fields, values that need escaping in file names
     cases, prefixes = [], []
     for (kind, mode, k, block, maxw, pre), h, form in runs:
         case, prefix = render(mlr, h, kind, mode, pre, block, form)
@@ -236,7 +314,7 @@ def run(tier, seed):
             V.violation({"why": "run failed", "form": form, "kind": kind},
                         {"argv": cases[idx]["argv"][1:], "hist": h, "stderr": rr["stderr"][:1000]})
             continue
-        o = observe(rr, h, kind, len(targets), block, prefix)
+        o = observe_split2(rr, h, kind, len(targets)) if form == "split2" else observe(rr, h, kind, len(targets), block, prefix)
         by_combo.setdefault(c[:3] + (tuple(c[5]),), []).append((idx, o))
 
     def obs_one(item):
